@@ -9,7 +9,7 @@ class C10(PropBase):
     rule = ('pairs (search, derived searches) by the five rewrite rules (comma -> alternatives, alias -> members, ** -> 0..n /* levels restricted to '
             'leaf types, filter k=v -> field equality, * -> literal) over generated universes on FindInList, and over real trees on FindInPaths and FindInAll; non-trivial = the left search finds something; '
             'distinct by (universe, rule, search)')
-    partial_note = 'the five rules are theorems for the list-backed finder under explicit guards; on FindInPaths / FindInAll they are oracle-checked pairs on the implementation'
+    partial_note = 'the five rules are theorems for the list-backed finder and, over a data set materialised as a tree, for FindInPaths, under explicit decidable guards; outside the guards and on FindInAll they are oracle-checked pairs on the implementation'
     def confdir(self, ws):
         return core.make_fs_confdir(ws)
     def gen_group(self, rng, v, base, pool):
